@@ -204,7 +204,8 @@ else:
     def encode(self, metric, tag_hash_filenames=None):
       if tag_hash_filenames is None:
         tag_hash_filenames = self.tag_hash_filenames
-      return TaggedSeries.encode(metric, hash_only=tag_hash_filenames)
+      # trim any leading path separator as well, the tree would treat it as an absolute path
+      return TaggedSeries.encode(metric, hash_only=tag_hash_filenames).lstrip('.' + sep)
 
     def write(self, metric, datapoints):
       self.tree.store(self.encode(metric), datapoints)
